@@ -432,7 +432,7 @@ def validate(
 
 
 def sany(module: str, spec_dir: Path = SPEC) -> None:
-    cmd = ["java", "-cp", f"{JAR}:{DEPS}", "tla2sany.SANY", f"{module}.tla"]
+    cmd = ["java", f"-Djava.io.tmpdir={_java_tmp()}", "-cp", f"{JAR}:{DEPS}", "tla2sany.SANY", f"{module}.tla"]
     p = subprocess.run(cmd, cwd=str(spec_dir), capture_output=True, text=True, timeout=120)
     out = p.stdout + p.stderr
     if p.returncode != 0 or "error" in out.lower().replace("semantic errors:\n\n", ""):
